@@ -138,7 +138,7 @@ def generate(ctx):
         M.ModelCfg("T_dc", "F_k12", "AS_filt", maxadd=a, maxcol=c, amounts="AM_12"),
         M.ModelCfg("T_d", "F_all", "AS_five", limit=4, deflimit=4, maxadd=a, maxcol=c, amounts="AM_12"),
     ]
-    jobs += [M.sim_job(mc, num=250 if thorough else 24, depth=a + c + 3, seed=ctx.seed * 103 + i) for i, mc in enumerate(deep)]
+    jobs += [M.sim_job(mc, num=150 if thorough else 24, depth=a + c + 3, seed=ctx.seed * 103 + i) for i, mc in enumerate(deep)]
     behs = M.run_jobs(ctx, jobs, parallel=4)
     ctx.extra["witness_behaviours"] = sum(1 for b in behs if b["src"].startswith("Wit"))
     if ctx.extra["witness_behaviours"] != nwit:
